@@ -341,8 +341,13 @@ func (t *tamper) VerifiableSQLGet(ctx context.Context, in *schema.VerifiableSQLG
 	}
 	m := t.muts
 	t.proven = ve.SqlEntry.Tx
+	// table t: claim about a, false value 5 (what b holds); table t2: claim about c, false value 2 (what b holds)
+	tbl, claimCol, otherCol, falseVal := "t", "(t.a)", "(t.b)", uint64(5)
+	if in.SqlGetRequest.Table == "t2" {
+		tbl, claimCol, otherCol, falseVal = "t2", "(t2.c)", "(t2.b)", 2
+	}
 	if m["sql.val"] {
-		ve.SqlEntry.Value = setIntCol(ve.SqlEntry.Value, ve.ColIdsByName["(t.a)"], 5)
+		ve.SqlEntry.Value = setIntCol(ve.SqlEntry.Value, ve.ColIdsByName[claimCol], falseVal)
 	}
 	if m["sql.tx"] {
 		ve.SqlEntry.Tx += 5
@@ -354,10 +359,14 @@ func (t *tamper) VerifiableSQLGet(ctx context.Context, in *schema.VerifiableSQLG
 		ve.TableId++
 	}
 	if m["cat.pkcol"] {
-		ve.PKIDs[0] = ve.ColIdsByName["(t.a)"]
+		if tbl == "t2" {
+			ve.PKIDs[0], ve.PKIDs[1] = ve.PKIDs[1], ve.PKIDs[0]
+		} else {
+			ve.PKIDs[0] = ve.ColIdsByName["(t.a)"]
+		}
 	}
 	if m["cat.colmap"] {
-		ve.ColIdsByName["(t.a)"] = ve.ColIdsByName["(t.b)"]
+		ve.ColIdsByName[claimCol] = ve.ColIdsByName[otherCol]
 	}
 	if m["incl.leaf"] {
 		ve.InclusionProof.Leaf = 1 - ve.InclusionProof.Leaf
@@ -367,9 +376,17 @@ func (t *tamper) VerifiableSQLGet(ctx context.Context, in *schema.VerifiableSQLG
 		if err != nil {
 			return nil
 		}
-		pk, _, err := sql.EncodeRawValueAsKey(int64(1), sql.IntegerType, 8)
-		if err != nil {
-			return nil
+		// the key the client builds: every pk value encoded with the type / length of the column id found in PKIDs
+		var pk []byte
+		for i, pv := range in.SqlGetRequest.PkValues {
+			if i >= len(ve.PKIDs) {
+				return nil
+			}
+			enc, _, err := sql.EncodeRawValueAsKey(schema.RawValue(pv), ve.ColTypesById[ve.PKIDs[i]], int(ve.ColLenById[ve.PKIDs[i]]))
+			if err != nil {
+				return nil
+			}
+			pk = append(pk, enc...)
 		}
 		key := sql.MapKey([]byte{ic.SQLPrefix}, sql.RowPrefix, sql.EncodeID(ve.DatabaseId), sql.EncodeID(ve.TableId), sql.EncodeID(sql.PKIndexID), pk)
 		root, ok := inclRoot(schema.InclusionProofFromProto(ve.InclusionProof), dig(&store.EntrySpec{Key: key, Value: ve.SqlEntry.Value}))
@@ -486,6 +503,14 @@ func main() {
 	if h, err := cl.Set(ctx, []byte("k11"), []byte("g")); err != nil || h.Id != 11 {
 		vh.Fatalf("unexpected history after the SQL statements: %v %v", h, err)
 	}
+	// tx 12: table t2 whose composite primary key (b, a) is not in declaration order, tx 13: the row ('x', 2, 7), tx 14
+	_, err = cl.SQLExec(ctx, "CREATE TABLE t2(a VARCHAR[8], b INTEGER, c INTEGER, PRIMARY KEY (b, a))", nil)
+	vh.Must(err, "create table t2")
+	_, err = cl.SQLExec(ctx, "INSERT INTO t2(a, b, c) VALUES ('x', 2, 7)", nil)
+	vh.Must(err, "insert t2")
+	if h, err := cl.Set(ctx, []byte("k14"), []byte("h")); err != nil || h.Id != 14 {
+		vh.Fatalf("unexpected history after the second table: %v %v", h, err)
+	}
 	inner := cl.GetServiceClient()
 	alhOf := map[uint64][]byte{}
 	alh := func(id uint64) []byte {
@@ -516,7 +541,11 @@ func main() {
 	cl.WithStreamServiceFactory(&tamperFactory{ServiceFactory: stream.NewStreamServiceFactory(4096), t: tm})
 	dbname := "defaultdb"
 
-	provenOf := map[string]uint64{"get0": 3, "getAt": 3, "txbyid": 3, "getRef": 6, "sget0": 3, "sgetRef": 6, "vrowT": 10, "vrowF": 10}
+	provenOf := map[string]uint64{"get0": 3, "getAt": 3, "txbyid": 3, "getRef": 6, "sget0": 3, "sgetRef": 6, "vrowT": 10, "vrowF": 10, "vrow2T": 13, "vrow2F": 13}
+	claim2 := func(c int64) *schema.Row {
+		return &schema.Row{Columns: []string{"(t2.c)"}, Values: []*schema.SQLValue{{Value: &schema.SQLValue_N{N: c}}}}
+	}
+	pk2 := []*schema.SQLValue{{Value: &schema.SQLValue_N{N: 2}}, {Value: &schema.SQLValue_S{S: "x"}}}
 	claim := func(a int64) *schema.Row {
 		return &schema.Row{Columns: []string{"(t.a)"}, Values: []*schema.SQLValue{{Value: &schema.SQLValue_N{N: a}}}}
 	}
@@ -573,6 +602,10 @@ func main() {
 				err = cl.VerifyRow(ctx, claim(100), "t", pk1)
 			case "vrowF":
 				err = cl.VerifyRow(ctx, claim(5), "t", pk1)
+			case "vrow2T":
+				err = cl.VerifyRow(ctx, claim2(7), "t2", pk2)
+			case "vrow2F":
+				err = cl.VerifyRow(ctx, claim2(2), "t2", pk2)
 			case "txbyid":
 				retTx, err = cl.VerifiedTxByID(ctx, P)
 			case "set":
@@ -606,9 +639,9 @@ func main() {
 		st := ms.st
 		replay := map[string]interface{}{"op": c.Op, "rel": c.Rel, "trusted_tx": T, "proven_tx": P, "alterations": c.Muts,
 			"how": "harness/cmd/c01c: bufconn server, history of 8 txs (tx 3 = {k1,k2}, tx 6 = reference r1->k1, tx 7 = reference r2->k2; swap = the honest answer for k2 / r2), client state set to the trusted tx, response altered between server and client"}
-		if len(c.Muts) == 0 && c.Op == "vrowF" {
+		if len(c.Muts) == 0 && (c.Op == "vrowF" || c.Op == "vrow2F") {
 			if accepted {
-				res.Violate("client:vrowF:false-claim-verified-on-honest-response", "VerifyRow accepted a = 5 for a row holding a = 100", replay)
+				res.Violate("client:"+c.Op+":false-claim-verified-on-honest-response", "VerifyRow accepted a false claim on the honest response", replay)
 			}
 			continue
 		}
@@ -694,6 +727,8 @@ func main() {
 			}
 		case "vrowF":
 			bad("claim", "VerifyRow accepted the claim a = 5 for a row that holds a = 100")
+		case "vrow2F":
+			bad("claim", "VerifyRow accepted the claim c = 2 for a row that holds c = 7")
 		case "set":
 			if !proto.Equal(retHdr, tm.lastSet) {
 				bad("header", "returned transaction header differs from the one committed")
